@@ -403,6 +403,85 @@ class BuiltGraph:
         self.node_index = {id(n): i for i, n in enumerate(nodes)}
 
 
+def _mk_nodes(g, values: dict, consts: dict) -> list:
+    """fresh ir.Node objects for g["nodes"]; `values` (vid -> ir.Value) is extended with their outputs"""
+    import onnx_ir as ir
+
+    nodes = []
+    for k, n in enumerate(g["nodes"]):
+        attrs = []
+        for name, ty, val in n["attrs"]:
+            if ty == "i":
+                attrs.append(ir.AttrInt64(name, int(val)))
+            elif ty == "f":
+                attrs.append(ir.AttrFloat32(name, float(val)))
+            elif ty == "s":
+                attrs.append(ir.AttrString(name, val))
+            elif ty == "is":
+                attrs.append(ir.AttrInt64s(name, [int(i) for i in val]))
+            elif ty == "fs":
+                attrs.append(ir.AttrFloat32s(name, [float(i) for i in val]))
+            else:
+                attrs.append(ir.AttrStrings(name, list(val)))
+        node = ir.Node(
+            n["dom"],
+            n["op"],
+            [None if i is None else values[i] for i in n["inputs"]],
+            attrs,
+            overload=n.get("ov") or "",
+            num_outputs=len(n["outputs"]),
+            name=f"n{k}",
+        )
+        for vid, ov in zip(n["outputs"], node.outputs):
+            ov.name = f"v{vid}"
+            values[vid] = ov
+            if vid in consts:
+                shape, data = consts[vid]
+                ov.const_value = ir.tensor(_np_const(data, shape), name=f"v{vid}")
+        nodes.append(node)
+    return nodes
+
+
+def graph_leaves(g) -> set:
+    produced = {o for n in g["nodes"] for o in n["outputs"]}
+    leafs = {i for n in g["nodes"] for i in n["inputs"] if i is not None and i not in produced}
+    leafs.update(o for o in g["outputs"] if o not in produced)
+    leafs.update(v for v, _, _ in g["consts"] if v not in produced)
+    return leafs
+
+
+def rebuild_in_place(bg: "BuiltGraph", g2) -> None:
+    """Edit the host graph IN PLACE: the ir.Graph / ir.Model objects (and the leaf values: graph inputs,
+    initializers, foreign values) stay, every node is replaced by a fresh ir.Node built from `g2` (a k-for-k
+    replacement when the node counts agree), graph outputs and external consumers are re-attached.  `g2` must have
+    the leaves of the graph `bg` was built from (same consts / foreign / foreign_kind)."""
+    import onnx_ir as ir
+
+    graph = bg.graph
+    leafs = graph_leaves(g2)
+    old_produced = {bg.vid_of[id(o)] for n in bg.nodes for o in n.outputs}
+    if not leafs <= (set(bg.values) - old_produced):
+        raise ValueError("rebuild_in_place: the edited graph has other leaves than the built one")
+    ext_nodes = [k for k in bg.keep if isinstance(k, ir.Node) and k.op_type == "ExternalUse"]
+    for n in list(bg.nodes) + ext_nodes:
+        for k in range(len(n.inputs)):
+            n.replace_input_with(k, None)
+    graph.outputs.clear()
+    graph.remove(list(bg.nodes), safe=False)
+    bg.keep = [k for k in bg.keep if not (isinstance(k, ir.Node) and k.op_type == "ExternalUse")]
+    values = {vid: v for vid, v in bg.values.items() if vid not in old_produced}
+    consts = {vid: (shape, data) for vid, shape, data in g2["consts"]}
+    nodes = _mk_nodes(g2, values, consts)
+    graph.extend(nodes)
+    graph.outputs.extend(values[o] for o in g2["outputs"])
+    for vid in g2.get("ext", []):
+        bg.keep.append(ir.Node("", "ExternalUse", [values[vid]], name=f"ext{vid}"))
+    bg.nodes = nodes
+    bg.values = values
+    bg.vid_of = {id(v): vid for vid, v in values.items()}
+    bg.node_index = {id(n): i for i, n in enumerate(nodes)}
+
+
 def build_graph(g) -> BuiltGraph:
     import onnx_ir as ir
 
@@ -443,38 +522,7 @@ def build_graph(g) -> BuiltGraph:
             initializers.append(v)
         else:
             graph_inputs.append(v)
-    nodes = []
-    for k, n in enumerate(g["nodes"]):
-        attrs = []
-        for name, ty, val in n["attrs"]:
-            if ty == "i":
-                attrs.append(ir.AttrInt64(name, int(val)))
-            elif ty == "f":
-                attrs.append(ir.AttrFloat32(name, float(val)))
-            elif ty == "s":
-                attrs.append(ir.AttrString(name, val))
-            elif ty == "is":
-                attrs.append(ir.AttrInt64s(name, [int(i) for i in val]))
-            elif ty == "fs":
-                attrs.append(ir.AttrFloat32s(name, [float(i) for i in val]))
-            else:
-                attrs.append(ir.AttrStrings(name, list(val)))
-        node = ir.Node(
-            n["dom"],
-            n["op"],
-            [None if i is None else values[i] for i in n["inputs"]],
-            attrs,
-            overload=n.get("ov") or "",
-            num_outputs=len(n["outputs"]),
-            name=f"n{k}",
-        )
-        for vid, ov in zip(n["outputs"], node.outputs):
-            ov.name = f"v{vid}"
-            values[vid] = ov
-            if vid in consts:
-                shape, data = consts[vid]
-                ov.const_value = ir.tensor(_np_const(data, shape), name=f"v{vid}")
-        nodes.append(node)
+    nodes = _mk_nodes(g, values, consts)
     graph = ir.Graph(
         graph_inputs,
         [values[o] for o in g["outputs"]],
@@ -575,14 +623,21 @@ def show_consts(gp) -> str:
     return ";".join(parts)
 
 
+def _dummy_replacement(op, **_):
+    return None  # never evaluated: only the match half of try_rewrite is run
+
+
 def run_real_commute(bp: BuiltPattern, bg: BuiltGraph, root: int, rm: bool, cond: bool) -> str:
-    """`GraphPattern.commute()`, then every variant matched with a fresh default matcher."""
+    """`RewriteRule(pattern, …, remove_nodes=rm).commute()` — the entry `RewriteRuleSet(commute=True)` uses — then
+    every variant rule matched the way `try_rewrite` does it: `rule.match(…, check_nodes_are_removable=
+    rule.remove_nodes)`.  Each variant has its own fresh default matcher (`matcher_class(new_pattern)`)."""
     from onnxscript.rewriter import pattern as P
 
     if bp.err:
         return bp.err
     try:
-        variants = bp.graph_pattern.commute()
+        rule = P.RewriteRule(bp.graph_pattern, _dummy_replacement, (lambda context, **kw: cond), remove_nodes=rm)
+        variants = rule.commute()
     except AssertionError:
         return "ERR:assertion"
     except NotImplementedError:
@@ -592,10 +647,10 @@ def run_real_commute(bp: BuiltPattern, bg: BuiltGraph, root: int, rm: bool, cond
     except Exception as e:  # noqa: BLE001
         return f"EXC:{type(e).__name__}"
     outs = []
-    for gp in variants:
-        pat = P.Pattern(gp, (lambda context, **kw: cond))
+    for v in variants:
+        gp = v._target_pattern
         try:
-            m = pat.match(bg.model, bg.graph, bg.nodes[root], check_nodes_are_removable=rm)
+            m = v.match(bg.model, bg.graph, bg.nodes[root], check_nodes_are_removable=v.remove_nodes)
             outs.append(show_match(m, bg) + " #K " + show_consts(gp))
         except Exception as e:  # noqa: BLE001
             outs.append(f"EXC:{type(e).__name__}" + " #K " + show_consts(gp))
